@@ -14,15 +14,16 @@ PREDS_C15 = ["StepBounds", "PriceReported", "FailedFeeExact", "PlainTransfer", "
 PREDS_C16 = ["FailedOnlyPayer", "OnlyPayerHash", "NoOutputOnFailure", "StatusConsistent", "FrameEffects",
              "FrameOutput", "ControlFlow"]
 
-BASE = dict(Users='{"a", "b", "c"}', Contracts='{"x", "y", "s"}', SyncContracts='{"s"}', Hangers='{"z"}',
+BASE = dict(Users='{"a", "b", "c"}', Contracts='{"x", "y", "s", "e"}', SyncContracts='{"s"}', EEContracts='{"e"}',
+            Hangers='{"z"}',
             Ghosts='{"g"}', Keys='{"k1", "k2"}',
             Prices="{0, 1, 2}", MsgLen="6", CallLen="37", MidPrice="TRUE")
 
 # chain configurations: step costs of the genesis (constants of the specification) and the
 # environment variables that make the harness build the same chain
 CHAINS = {
-    "plain": dict(consts=dict(DefaultCost="2", InputCost="0", CallCost="1", WithMsg="FALSE", InvokeLimit="268435456"),
-                  env=dict(VERIF_TX_DEFAULT="2", VERIF_TX_INPUT="0", VERIF_TX_CALL="1", VERIF_TX_BTP="0", VERIF_TX_CHAIN="plain"),
+    "plain": dict(consts=dict(DefaultCost="2", InputCost="0", CallCost="1", WithMsg="FALSE", InvokeLimit="9"),
+                  env=dict(VERIF_TX_DEFAULT="2", VERIF_TX_INPUT="0", VERIF_TX_CALL="1", VERIF_TX_BTP="0", VERIF_TX_INVOKE="9", VERIF_TX_CHAIN="plain"),
                   bals=dict(FundVals="{0, 1, 4, 7, 12, 20}", SimBals="{0, 3, 6, 14, 25}")),
     "input": dict(consts=dict(DefaultCost="1", InputCost="1", CallCost="2", WithMsg="FALSE", InvokeLimit="268435456"),
                   env=dict(VERIF_TX_DEFAULT="1", VERIF_TX_INPUT="1", VERIF_TX_CALL="2", VERIF_TX_BTP="0", VERIF_TX_CHAIN="input"),
@@ -40,6 +41,14 @@ def consts(chain, **kw):
     c.update(CHAINS[chain]["consts"])
     c.update({k: str(v) for k, v in kw.items()})
     return c
+
+
+INVOKE_CAP = {}
+_CHAIN = ["plain"]
+
+
+def chain_of(b):
+    return _CHAIN[0]
 
 
 def features(b):
@@ -70,9 +79,20 @@ def features(b):
                 f.add("nested-depth-2")
             if tx["to"] == "g":
                 f.add("to-contract-without-code")
+            if tx["to"] == "e":
+                f.add("ee-contract:" + ("ok" if r["ok"] else "failed"))
+                if r["ok"] and any(o["o"] == "call" for o in tx["prog"]):
+                    f.add("ee-contract:ok-with-inter-call")
+            if any(o["o"] == "call" and o["a"] == "e" for o in tx["prog"]) and tx["to"] != "e" and r["entered"]:
+                f.add("ee-contract:called-from-other-kind")
+            if tx["limit"] < r["su"]:
+                f.add("limit-below-minimum-charge")
+            if tx["limit"] > INVOKE_CAP.get(chain_of(b), 1 << 40) and r["entered"]:
+                f.add("limit-above-invoke-limit")
             if r["code"] == "timeout":
                 # where the mutations that must be rolled back were made
-                f.add("timeout:" + ("sync-frame" if tx["to"] == "s" else "direct" if tx["to"] == "z" else "async-frame"))
+                f.add("timeout:" + ("sync-frame" if tx["to"] == "s" else "direct" if tx["to"] == "z" else
+                                    "ee-frame" if tx["to"] == "e" else "async-frame"))
                 if any(o["o"] == "call" and o["a"] == "s" for o in tx["prog"]):
                     f.add("timeout:below-nested-sync-frame")
                 if any(o["o"] == "ev" for o in tx["prog"]):
@@ -92,7 +112,9 @@ REQUIRED = ["code:ok", "code:balance", "code:fail", "charge-loop:rollback", "cha
             "to-contract-without-code", "kind:transfer", "kind:message", "kind:call", "kind:call:failed",
             "blocks-of-1", "blocks-of-2", "blocks-of-3", "op:price", "op:fund", "price-change-inside-block",
             "code:timeout", "timeout:sync-frame", "timeout:async-frame", "timeout:direct",
-            "timeout:below-nested-sync-frame", "timeout:after-events"]
+            "timeout:below-nested-sync-frame", "timeout:after-events", "timeout:ee-frame",
+            "ee-contract:ok", "ee-contract:failed", "ee-contract:ok-with-inter-call",
+            "ee-contract:called-from-other-kind", "limit-below-minimum-charge", "limit-above-invoke-limit"]
 
 
 def generate(ctx, chain, *, bfs, walks, wdepth, maxtx=3, par=1, users=None):
@@ -127,6 +149,8 @@ def generate(ctx, chain, *, bfs, walks, wdepth, maxtx=3, par=1, users=None):
 
 def require(bs, needed, label):
     import vlib
+    _CHAIN[0] = label
+    INVOKE_CAP[label] = int(CHAINS[label]["consts"]["InvokeLimit"])
     feats = set()
     for b in bs:
         feats |= features(b)
@@ -157,7 +181,7 @@ def replay_and_validate(ctx, chain, allb, preds, label):
     if not trace:
         raise ctx_error("no block was executed")
     cs = consts(chain, MaxTx=3, MaxOps=0, FundVals="{}", Users='{"a", "b", "c", "d"}')
-    for k in ("WithMsg", "MsgLen", "CallLen", "SyncContracts"):
+    for k in ("WithMsg", "MsgLen", "CallLen", "SyncContracts", "EEContracts", "MCShift"):
         cs.pop(k, None)
     import vlib
     from concurrent.futures import ThreadPoolExecutor
@@ -224,7 +248,7 @@ def run_pipeline(ctx, preds, what):
     mc = ctx.pick(dict(MaxTx=2, MaxOps=3, MCFrom='{"a"}', MCBals="{4}", MCCBals="{2}", MCValues="{0, 1}",
                        MCExtras="{0, 3}", FundVals="{1}"),
                   dict(MaxTx=2, MaxOps=3, MCFrom='{"a", "b"}', MCBals="{0, 3, 9}", MCCBals="{0, 2}",
-                       MCValues="{0, 1}", MCExtras="{0, 2, 5}", FundVals="{3}"))
+                       MCValues="{0, 1}", MCExtras="{0, 1, 3, 6}", MCShift=1, FundVals="{3}"))
     r = ctx.model_check("txexec", "MC_TxExec", "MC_TxExec.cfg", constants=consts("btp", **mc), coverage=True,
                         timeout=ctx.pick(600, 3000))
     ctx.check_coverage(r, ["ExecTx", "EndBlock", "SetPrice", "Fund"])
@@ -232,7 +256,7 @@ def run_pipeline(ctx, preds, what):
     # 2. behaviours on the default chain configuration
     bfs = ctx.pick(dict(MCFrom='{"a"}', MCBals="{5}", MCCBals="{1}", MCValues="{0, 1}", MCExtras="{0, 2, 6}"),
                    dict(MCFrom='{"a", "b"}', MCBals="{5}", MCCBals="{0, 2}", MCValues="{0, 1, 2}",
-                        MCExtras="{0, 1, 2, 4, 7}"))
+                        MCExtras="{0, 1, 2, 3, 5, 8}", MCShift=1))
     par = ctx.pick(1, 4)
     allb = generate(ctx, "plain", bfs=bfs, walks=ctx.pick(120, 1600), wdepth=ctx.pick(12, 16),
                     maxtx=ctx.pick(3, 4), par=par,
